@@ -55,6 +55,53 @@ def judge(rec, opts):
     return out
 
 
+def judge_matter(rec, opts):
+    """Loader matter belongs to the template that is rendered: the matter of a parent (or of a partial) a chain loads
+    takes no part in the lookup order - the page is the one rendered without it - and is left as it was."""
+    import copy
+
+    from liquid2 import DictLoader
+    from liquid2.loader import TemplateSource
+    templates = {replay.conc(n): replay.conc(t) for n, t in rec["templates"]}
+    main = replay.conc(rec["main"])
+    args = replay.layer(rec["data"][0])
+    names = set(args) | {"v", "x", "block"}
+    matter = {n: {k: f"MATTER-OF-{n}" for k in names if k != "block"} for n in templates if n != main}
+    before = copy.deepcopy(matter)
+
+    class MatterLoader(DictLoader):
+        def get_source(self, env, template_name, *, context=None, **kwargs):
+            src = super().get_source(env, template_name, context=context, **kwargs)
+            return TemplateSource(src[0], src[1], src[2], matter.get(template_name))
+
+        async def get_source_async(self, env, template_name, *, context=None, **kwargs):
+            return self.get_source(env, template_name, context=context, **kwargs)
+
+    out = []
+    plain = replay.outcome(lambda: replay.make_env(rec["cfg"], loader=DictLoader(dict(templates))).get_template(main).render(**args))
+    for mode in ("sync", "async"):
+        env = replay.make_env(rec["cfg"], loader=MatterLoader(dict(templates)))
+
+        def go():
+            if mode == "sync":
+                return env.get_template(main).render(**args)
+            import asyncio
+
+            async def co():
+                t = await env.get_template_async(main)
+                return await t.render_async(**args)
+            return asyncio.run(co())
+        got = replay.outcome(go)
+        if got.get("ok") != plain.get("ok") or got.get("out") != plain.get("out") or got.get("err") != plain.get("err"):
+            out.append((f"parent-matter-in-lookup:{mode}:{'entered-via-' + main if main in ('inc', 'ren') else 'chain'}",
+                        {"templates": templates, "main": main, "without": plain, "with": got}))
+            break
+        if matter != before:
+            out.append((f"data-mutated:parent-matter:{mode}", {"templates": templates}))
+            break
+    return out
+
+
 def check(tier: str) -> int:
     chk = Check("C10", tier)
     chk.assumptions += ["deep equality via == on JSON-like Python values (dict/list/str/int/bool/None/range)",
@@ -83,6 +130,19 @@ def check(tier: str) -> int:
                 gen.replay_file(chk, r.workdir / "out.ndjson", "harness.c10", "judge", {"compare": False})
             finally:
                 r.cleanup()
+    # chains of templates (LiquidInherit): the matter a loader gives for a parent or a partial is not in the lookup order
+    from . import tlc
+    consts = {"MaxDepth": "2", "Focus": '"inherit-matter"', "AutoEsc": "FALSE"}
+    r = tlc.run("LiquidInherit", tlc.cfg_text(constants=consts, invariants=["Export"]), tag="inherit-matter",
+                extra_files={"concrete.json": gen.CONCRETE}, timeout=7000)
+    try:
+        if r.error:
+            chk.machinery_error = r.error
+        else:
+            chk.tlc(r, "chains of depth <= 2 (LiquidInherit) rendered with and without loader matter on the parents and partials")
+            gen.replay_file(chk, r.workdir / "out.ndjson", "harness.c10", "judge_matter")
+    finally:
+        r.cleanup()
     return chk.finish()
 
 
